@@ -95,7 +95,7 @@ def flag_injection(rng, n_cases):
 REC = [0]
 
 
-def real_runs(rng, n_runs):
+def real_runs(rng, n_runs, descs=None):
     """interpolation conditions along real minimize runs: after the initial sampling and after every
     update_interpolation / shift_x_base / reset_models"""
     import contextlib, io
@@ -106,8 +106,8 @@ def real_runs(rng, n_runs):
     n_rec = REC
     n_rec[0] = 0
     worst = [0.0]
-    for _ in range(n_runs):
-        d = genruns.gen(rng, "general")
+    for it in range(n_runs if descs is None else len(descs)):
+        d = genruns.gen(rng, "general") if descs is None else descs[it]
         d.pop("callback_kind", None)
         if d.get("fun") and d["fun"].get("bad"):
             d["fun"].pop("bad")
@@ -202,7 +202,11 @@ def real_runs(rng, n_runs):
 def run(chk, rng, replay=None):
     ok, info = proof_stage(chk, MODULES, extra_targets=["CobyqaVerif.Alg.Solve"])
     want = 24 if chk.tier == "quick" else 300
-    specs = [tuple(replay["spec"])] if replay is not None and "spec" in replay else gen_specs(rng, chk.tier, want)
+    real_replay = replay is not None and isinstance(replay.get("spec"), dict) and "desc" in replay["spec"]
+    if real_replay:
+        specs = []
+    else:
+        specs = [tuple(replay["spec"])] if replay is not None and "spec" in replay else gen_specs(rng, chk.tier, want)
     hs = run_histories(specs)
     specfail, mism = [], []
     for sp, what in CRASHES[:3]:
@@ -241,7 +245,10 @@ def run(chk, rng, replay=None):
             if d > tol:
                 mism.append((h["spec"], f"float model and exact model differ by {d!r} at an interpolation point after {op} (allowance {tol:.3g})"))
                 break
-    rr_fails, rr_checks, rr_worst = real_runs(rng, 25 if chk.tier == "quick" else 600) if replay is None else ([], 0, 0.0)
+    if real_replay:
+        rr_fails, rr_checks, rr_worst = real_runs(rng, 1, descs=[replay["spec"]["desc"]])
+    else:
+        rr_fails, rr_checks, rr_worst = real_runs(rng, 25 if chk.tier == "quick" else 600) if replay is None else ([], 0, 0.0)
     for d, what in rr_fails[:3]:
         specfail.append(({"desc": d}, "real run: " + what))
     inj = flag_injection(rng, 12 if chk.tier == "quick" else 300)
